@@ -36,8 +36,8 @@ Proof.
        | context [match reason ?b with _ => _ end] => destruct (reason b) as [[|]|] eqn:?
        | context [let _ := _ in _] => cbv zeta in Qa
        end; try discriminate.
+  - right. split; reflexivity.
   - exfalso. apply PN; reflexivity.
-  - right. split; reflexivity || assumption.
 Qed.
 
 Lemma all_idle_quiescent s : (forall a, apc (A s a) = Idle) -> Quiescent s.
